@@ -41,6 +41,9 @@ def as_assumption(ens):
     def g(*args):
         st = cur()
         st.ghost["c05_assuming"] = st.ghost.get("c05_assuming", 0) + 1
+        # ghost call log of this path: (contract, arguments view, result) of every call made through a contract,
+        # so that the caller's postcondition can relate its result to what its callees were asked and answered
+        st.ghost.setdefault("c05_calls", []).append((ens.__qualname__.split(".")[0], args[-2], args[-1]))
         try:
             return list(Contract._gen(ens(*args)))
         finally:
@@ -496,3 +499,130 @@ class trie_get:
 
     def on_raise(old, s, a, exc):
         yield "more-input-asked-only-when-more-can-come", a.more_available
+
+
+# --------------------------------------------------------------------------------------------- process_keyqueue
+#
+# One step of the decoder: (events, remaining) = process_keyqueue(codes, more_available), codes non-empty.
+# Event values on the function's own paths: chr(code) (an abstract character with its ordinal), a constant name from
+# `_keyconv`, an opaque formatted text ("ctrl x", "<nnn>", "meta ..." — f-strings over symbolic values: their
+# content is DROPPED, only that one event is produced is kept), the str decoded from a UTF-8 group, whatever the
+# trie/readers return, and — from the recursive ESC-prefix step — opaque `KeyEvent`s.
+# The byte encoding is the module global `str_util._byte_encoding` (all three modes).
+from pyvc.text import SText, char_ord  # noqa: E402
+from urwid import str_util as _su  # noqa: E402
+
+SU = "urwid/str_util.py:"
+ENC = dict(_byte_encoding=Atom("utf8", "narrow", "wide"))
+STEP = Tup(ListOf(EVENT, min_len=1), CODES)
+
+
+def _bytes_of(st, items, n):
+    """bytes(list) for a list of ints 0..255 whose length n is concrete on this path: a bytes text with those bytes."""
+    t = SText("bytes", n, st.fresh_name("bytes"))
+    for j in range(n):
+        st.assume(t.get(j) == Q.seq_get(items, j))
+    return t
+
+
+def _pk_real(ip, st, f, args, kwargs):
+    if f is bytes and len(args) == 1 and isinstance(args[0], LRef):
+        items = args[0].seq
+        n = Q.seq_len(items)
+        if not isinstance(n, int):
+            # the slices codes[:2], codes[:need_more+1] have a concrete length once len(codes) is known to reach it
+            for c in (1, 2, 3, 4):
+                r, _m = st._check(z3.Not(V._zb(n == c)), st.cfg.branch_timeout_ms)
+                if r == z3.unsat:
+                    n = c
+                    break
+            else:
+                raise Unsupported("bytes() of a list whose length is not determined on this path")
+        return _bytes_of(st, items, n)
+    if getattr(f, "__self__", None) is _esc.input_trie and getattr(f, "__name__", "") == "get":
+        # the module-level trie object: an instance whose `data` is an (opaque) mapping node
+        from pyvc.interp import FnVal
+        from pyvc import source as SRC
+
+        me = TRIE.fresh(st, "input_trie")
+        return trie_get.apply(ip, st, FnVal(SRC.resolve(trie_get.target)), [me, *args], kwargs, site="urwid/display/escape.py:input_trie.get")
+    return NotImplemented
+
+
+def utf8_len(code):
+    """Length of the UTF-8 group announced by a lead byte (1 for anything that is not a lead byte)."""
+    return ite(both(0xC0 <= code, code <= 0xDF), 2, ite(both(0xE0 <= code, code <= 0xEF), 3, ite(both(0xF0 <= code, code <= 0xF7), 4, 1)))
+
+
+def is_cont(k):
+    return both(0x80 <= k, k <= 0xBF)
+
+
+@contract(ES + "process_keyqueue", property="C05", replayable=False, globals_=ENC, inline=(SU + "get_byte_encoding",))
+class process_keyqueue:
+    params = dict(codes=CODES, more_available=Bool)
+    result = STEP
+    raises = (_esc.MoreInputRequired,)
+    call_real = staticmethod(_pk_real)
+
+    def requires(a):
+        return klen(a.codes) >= 1
+
+    def decreases(a):
+        return klen(a.codes)
+
+    def ensures(a, result):
+        n = klen(a.codes)
+        events, rem = result
+        d = consumed(a.codes, rem)
+        code = kat(a.codes, 0)
+        enc = a.g__byte_encoding
+        k = lambda j: kat(a.codes, imax(0, imin(j, n - 1)))  # noqa: E731
+        yield "at-least-one-event", klen(events) >= 1
+        yield "remaining-is-a-proper-suffix-left-to-right", both(d >= 1, is_suffix_from(rem, a.codes, d))
+        ascii_or_control = both(code != 27, code <= 127)
+        yield "ascii-and-control-codes-are-one-event-consuming-one-code", implies(ascii_or_control, both(d == 1, klen(events) == 1))
+        yield "single-byte-mode-passes-every-non-escape-byte-through-alone", implies(both(enc == "narrow", code != 27), both(d == 1, klen(events) == 1))
+        L = utf8_len(code)
+        u8 = both(enc == "utf8", code >= 128)
+        yield "utf8-consumes-the-whole-group-or-the-lead-byte-alone", implies(u8, both(klen(events) == 1, either(d == 1, both(L > 1, d == L))))
+        yield "utf8-group-taken-only-with-all-continuation-bytes", implies(both(u8, d > 1), both(n >= L, is_cont(k(1)), implies(L >= 3, is_cont(k(2))), implies(L >= 4, is_cont(k(3)))))
+        yield "utf8-stray-continuation-or-bad-continuation-passes-the-lead-byte-alone", implies(
+            both(u8, either(L == 1, both(n >= 2, neg(is_cont(k(1)))), both(L >= 3, n >= 3, neg(is_cont(k(2)))), both(L >= 4, n >= 4, neg(is_cont(k(3)))))), d == 1)
+        yield "wide-mode-takes-one-or-two-bytes", implies(both(enc == "wide", code != 27), both(klen(events) == 1, d <= 2))
+        if not cur().ghost.get("c05_assuming", 0) and klen(events) >= 1:
+            # ESC-prefixed input: the trie / the inner step were asked about exactly codes[1:], and the ESC step
+            # consumes one code more than they did (nothing re-read, nothing skipped)
+            calls = [c for c in cur().ghost.get("c05_calls", []) if c[0] in ("trie_get", "process_keyqueue")]
+            for who, ca, cr in calls:
+                asked = ca.keys if who == "trie_get" else ca.codes
+                yield f"esc-prefix-asks-{who}-about-exactly-the-codes-after-esc", both(code == 27, is_suffix_from(asked, a.codes, 1))
+            if calls:
+                who, ca, cr = calls[-1]  # the call whose answer is returned
+                asked = ca.keys if who == "trie_get" else ca.codes
+                if who == "trie_get" and is_none(cr):
+                    yield "a-lone-esc-is-the-esc-key", both(d == 1, klen(events) == 1, eq(Q.seq_get(_seq(events), 0), "esc"))
+                else:
+                    inner_rem = split_read(cr)[1] if who == "trie_get" else cr[1]
+                    yield "esc-prefix-consumes-one-more-than-what-follows-it", d == 1 + consumed(asked, inner_rem)
+                if who == "process_keyqueue":
+                    yield "esc-prefix-keeps-every-inner-event", klen(events) >= klen(cr[0])
+            e0 = Q.seq_get(_seq(events), 0)
+            if isinstance(e0, SOpaque) and e0.kind == "Char":
+                yield "a-single-character-event-is-that-byte", both(d == 1, char_ord(e0) == code)
+            printable = both(32 <= code, code <= 126)
+            yield "printable-ascii-is-reported-as-its-character", implies(printable, isinstance(e0, SOpaque) and e0.kind == "Char")
+
+    ensures_callee = as_assumption(ensures)
+
+    def on_raise(a, exc):
+        n = klen(a.codes)
+        code = kat(a.codes, 0)
+        enc = a.g__byte_encoding
+        k = lambda j: kat(a.codes, imax(0, imin(j, n - 1)))  # noqa: E731
+        L = utf8_len(code)
+        yield "more-input-asked-only-when-more-can-come", a.more_available
+        yield "more-input-asked-only-inside-a-multi-byte-group-or-an-escape-sequence", either(
+            code == 27,
+            both(enc == "utf8", code >= 128, L > 1, n < L, implies(n >= 2, is_cont(k(1))), implies(n >= 3, is_cont(k(2)))),
+            both(enc == "wide", code >= 128, n == 1))
